@@ -142,9 +142,10 @@ def check_C13(lines, obs):
             t = ln.split(" ")
             if len(t) > 1 and t[1].startswith("$") and t[1] in after and t[1] not in before and t[0] not in INPLACE:
                 return fail(ln, "a refused call leaves no new array behind", "no " + t[1], f"{t[1]}={after[t[1]]}")
-        if op == "arr" and ob.startswith("ok"):
-            # the constructor accepted: the declared shape token must be the dims' shape
-            pass
+        t_ = ln.split(" ")
+        if (op == "setitem" and len(t_) == 4 and t_[2] == "E" and t_[3].startswith("n:") and t_[1] in before and ob == "err"):
+            return fail(ln, "a well-formed array (values of the shape of its dimensions) can be assigned a number as a whole",
+                        "ok", f"err; {t_[1]}={before[t_[1]]}")
     return None
 
 
